@@ -21,6 +21,7 @@ import (
 	"flag"
 	"fmt"
 	"go/ast"
+	"go/constant"
 	"go/format"
 	"go/token"
 	"go/types"
@@ -48,7 +49,7 @@ type census struct {
 	SyncMapRange []string       `json:"sync_map_range"`
 	Skipped      []string       `json:"skipped"`
 	EventTypes   []string       `json:"event_types"`
-	Operations   []string       `json:"operations"`
+	Operations   [][2]string    `json:"operations"`
 }
 
 var cs = census{Sites: map[string]int{}, HotVars: map[string]int{}}
@@ -123,7 +124,12 @@ func main() {
 			collectConsts(p, "EventType", &cs.EventTypes)
 		}
 		if p.PkgPath == modPath+"/pkg/milestones" {
-			collectConsts(p, "Operation", &cs.Operations)
+			var names []string
+			collectConsts(p, "Operation", &names)
+			for _, n := range names {
+				c := p.Types.Scope().Lookup(n).(*types.Const)
+				cs.Operations = append(cs.Operations, [2]string{n, constant.StringVal(c.Val())})
+			}
 		}
 		for i, f := range p.Syntax {
 			name := p.CompiledGoFiles[i]
